@@ -174,6 +174,9 @@ def _make_app(apps, calls, notes=None):
         sc = apps[i]
         hdrs = [(n, v) for n, v in sc["headers"]]
         pieces = [bytes.fromhex(p) for p in sc["pieces"]]
+        boom = sc.get("raise")   # fault stream only: "call" | "prestart" | k (after start_response, before piece k)
+        if boom == "call":
+            raise KeyError("application raised when called")
 
         def begin():
             first = sc.get("first")
@@ -191,8 +194,14 @@ def _make_app(apps, calls, notes=None):
             return pieces
 
         def gen():
+            if boom == "prestart":
+                raise KeyError("application raised before start_response")
             begin()
-            for j, p in enumerate(pieces):
+            for j, p in enumerate(pieces + [None]):
+                if isinstance(boom, int) and j == boom:
+                    raise KeyError("application raised while producing the body")
+                if p is None:
+                    return
                 if sc.get("late") is not None and j == sc["late"]:
                     exc = RuntimeError("too late")
                     try:
@@ -266,6 +275,83 @@ def run_loopback(case):
             server.close()
 
 
+def fault_cases(rng, n):
+    """Apps that raise (when called / before start_response / after it, before or after the first body bytes) and apps
+    that call start_response illegally after the head was sent.  Outside the Gallina model: checked by fault_oracle."""
+    out = [
+        {"reqs": [_req(), _req()], "apps": [dict(_app(pieces=["a"]), **{"raise": "call"}), _app(pieces=["next"])]},
+        {"reqs": [_req(), _req()], "apps": [dict(_app(pieces=["a"]), **{"raise": "prestart"}), _app(pieces=["next"])]},
+        {"reqs": [_req(), _req()], "apps": [dict(_app(pieces=["", "a"]), **{"raise": 1}), _app(pieces=["next"])]},
+        {"reqs": [_req(), _req()], "apps": [dict(_app(headers=[("Content-Length", "6")], pieces=["abc", "def"]), **{"raise": 1}), _app(pieces=["next"])]},
+        {"reqs": [_req(), _req()], "apps": [dict(_app(pieces=["abc", "def"]), **{"raise": 2}), _app(pieces=["next"])]},
+        {"reqs": [_req(), _req()], "apps": [dict(_app(pieces=["sent", "more", "never"]), late=2), _app(pieces=["next"])]},
+        {"reqs": [_req("1.0", "keep-alive"), _req()], "apps": [dict(_app(pieces=["x"]), **{"raise": "prestart"}), _app(pieces=["next"])]},
+    ]
+    while len(out) < n:
+        c = gen_case(rng)
+        c.pop("tx", None)   # an aborted response is flushed only once before the close: keep sends unlimited
+        i = rng.randrange(len(c["apps"]))
+        a = c["apps"][i]
+        a.pop("first", None)
+        a["style"] = "gen" if rng.random() < 0.8 else a["style"]
+        kind = rng.random()
+        if kind < 0.2:
+            a["raise"] = "call"
+        elif kind < 0.4 and a["style"] == "gen":
+            a["raise"] = "prestart"
+        elif kind < 0.8 and a["style"] == "gen":
+            a["raise"] = rng.randint(0, len(a["pieces"]))
+        elif a["style"] == "gen" and len(a["pieces"]) >= 2 and a["pieces"][0] and app_declared(a) is None:
+            a["late"] = rng.randint(1, len(a["pieces"]) - 1)
+        else:
+            a["raise"] = "call"
+        out.append(c)
+    return out
+
+
+def fault_oracle(case, obs):
+    """Property of the fault stream: Server.service never raises; a failure before anything was sent is answered by a
+    complete, length-framed 500 and the connection goes on as the request asked; a failure after the head was sent
+    ends the connection after that response; every earlier response is exact."""
+    if "harness_escape" in obs:
+        return "Server.service() raised: " + obs["harness_escape"]
+    answered, must_close = expected_answered(case)
+    data = bytes.fromhex(obs["out"])
+    expect, aborted = [], False
+    for i in answered:
+        a = case["apps"][i]
+        boom = a.get("raise")
+        pcs = [bytes.fromhex(p) for p in a["pieces"]]
+        if boom in ("call", "prestart") or (isinstance(boom, int) and not any(pcs[:boom])):
+            # a declared length already satisfied ends the response before the app is resumed
+            expect.append((i, "500 Internal Server Error", b"Internal Server Error"))
+            continue
+        d = app_declared(a)
+        k = boom if isinstance(boom, int) else a.get("late")
+        if k is not None and not (d is not None and sum(len(p) for p in pcs[:k]) >= d):
+            expect.append((i, None, None))   # aborted mid-body
+            aborted = True
+            break
+        expect.append((i, a["status"], app_body(a)))
+    if obs["calls"] != [e[0] for e in expect]:
+        return f"app invoked for requests {obs['calls']}, expected {[e[0] for e in expect]}"
+    if obs["closed"] != (aborted or must_close):
+        return f"connection closed={obs['closed']}, expected {aborted or must_close} (aborted={aborted})"
+    resps, rest = read_responses(data, len(expect))
+    for k, (i, status, body) in enumerate(expect):
+        if status is None:
+            break
+        if k >= len(resps) or "error" in resps[k]:
+            return f"response {k} (request {i}) missing or unparsable"
+        r = resps[k]
+        if r["status"].strip() != status.strip() or r["body"] != body:
+            return f"response {k} (request {i}): got {r['status']!r} / {len(r['body'])} bytes, expected {status!r} / {len(body)} bytes"
+        if r["framed"] == "close" and not (k == len(expect) - 1 and obs["closed"]):
+            if not in_open_class(case):
+                return f"response {k} (request {i}) is unframed on an open connection"
+    return None
+
+
 def extra(tier, ctx):
     """Real-kernel soak: a sample of cases is replayed over a loopback TCP connection; the byte stream and the
     close must equal what the fake transport observed (so the fake socket does not distort anything)."""
@@ -290,7 +376,22 @@ def extra(tier, ctx):
                                        "why": "stream/close over a real loopback connection differs from the fake transport run: "
                                               f"real closed={real['closed']} {len(real['out']) // 2} bytes calls={real['calls']}; "
                                               f"fake closed={fake['closed']} {len(fake['out']) // 2} bytes calls={fake['calls']}"})
-    return {"loopback_soak_cases": n, "loopback_soak_mismatches": bad}
+    # fault stream: raising applications (not in the Gallina model)
+    fc = fault_cases(rng, 150 if tier == "quick" else 1500)
+    fbad = 0
+    for c in fc:
+        try:
+            o = run_impl(c)
+        except BaseException as ex:
+            if isinstance(ex, (KeyboardInterrupt, SystemExit)):
+                raise
+            o = {"harness_escape": f"{type(ex).__name__}: {ex}"}
+        why = fault_oracle(c, o)
+        if why and not (in_open_class(c) and "harness_escape" not in o):
+            fbad += 1
+            if fbad <= 2:
+                ctx.violations.append({"kind": "fault-stream", "case": c, "why": why, "observed": o})
+    return {"loopback_soak_cases": n, "loopback_soak_mismatches": bad, "fault_stream_cases": len(fc), "fault_stream_failures": fbad}
 
 
 
@@ -525,9 +626,6 @@ def directed():
                   dict(_app("500 Replaced", headers=[cl(3)], pieces=["abc"]), first={"status": "200 OK", "headers": [list(cl(50))]}),
                   dict(_app("500 Replaced", headers=[cl(3)], pieces=["abc"]), first={"status": "200 OK", "headers": []}),
                   _app(pieces=["after"])]},
-        # the illegal second call after the head went out must re-raise; the response ends there
-        {"reqs": [_req(), _req()], "apps": [dict(_app(pieces=["sent", "more", "never"]), late=2), _app(pieces=["next"])]},
-        {"reqs": [_req(), _req()], "apps": [dict(_app(headers=[cl(4)], pieces=["se", "nt", "never"]), late=2), _app(pieces=["next"])]},
         # Connection: close on 1.1 with chunked response, empty body
         {"reqs": [_req(conn="close")], "apps": [_app("204 No Content" if False else "200 OK", pieces=[""])]},
     ]
@@ -592,10 +690,6 @@ def gen_case(rng, malformed=False):
                 fh.insert(rng.randint(0, len(fh)), ["Content-Length", str(rng.choice([0, 1, 3, 7, 40, 1000]))])
             ap["first"] = {"status": rng.choice(STATUSES).strip(), "headers": fh}
         apps.append(ap)
-    for ap in apps:   # an illegal late start_response call: only where the head is surely out and no clamp hides it
-        pcs = [bytes.fromhex(p) for p in ap["pieces"]]
-        if (ap["style"] == "gen" and len(pcs) >= 2 and pcs[0] and app_declared(ap) is None and rng.random() < 0.15):
-            ap["late"] = rng.randint(1, len(pcs) - 1)
     case = {"reqs": reqs, "apps": apps}
     if malformed:
         # a malformed request closes the connection at once and drops what is still queued of the previous
